@@ -1040,6 +1040,22 @@ def closure(g: nx.DiGraph, sel) -> set[int]:
     return keep
 
 
+def sel_arg(sel, salt: int = 0):
+    """the same selection in the container a caller may hold it in: a set, a list, a list with
+    repeated entries (node lists of several clicks concatenated), a tuple, a numpy array"""
+    sel = [int(x) for x in sel]
+    k = (sum(sel) * 7 + len(sel) * 3 + salt) % 5
+    if k == 0:
+        return set(sel)
+    if k == 1:
+        return list(sel)
+    if k == 2:
+        return list(sel) + list(reversed(sel)) + list(sel)
+    if k == 3:
+        return tuple(sel)
+    return np.array(sel, dtype=np.int64)
+
+
 def gen_selections(rng: random.Random, g: nx.DiGraph) -> list[tuple[str, list[int]]]:
     nodes = [int(n) for n in g.nodes]
     out: list[tuple[str, list[int]]] = [("empty", [])]
@@ -1123,7 +1139,7 @@ def check_c15(tracks, rng: random.Random, co: CaseOut, selections=None, model: b
                     co.nontrivial.append(h([tag, "csv", with_seg]))
                 f, tif = d / f"c{i}{int(with_seg)}.csv", d / f"c{i}.tif"
                 kw = dict(export_seg=True, seg_path=tif) if with_seg else {}
-                st, r = guarded(export_to_csv, tracks, f, node_ids=set(sel), **kw)
+                st, r = guarded(export_to_csv, tracks, f, node_ids=sel_arg(sel), **kw)
                 pre = "C15|csv|" + ("empty-selection-" if not sel else "")
                 if st != "ok":
                     co.fail(pre + ("seg-" if with_seg else "") + "export-raises-" + (type(r).__name__ if st == "err" else "hang"),
@@ -1173,7 +1189,7 @@ def check_c15(tracks, rng: random.Random, co: CaseOut, selections=None, model: b
             if "csv" in fmts:
                 co.evals += 1
                 fdn = d / f"cd{i}.csv"
-                st, r = guarded(export_to_csv, tracks, fdn, node_ids=set(sel), use_display_names=True)
+                st, r = guarded(export_to_csv, tracks, fdn, node_ids=sel_arg(sel, 1), use_display_names=True)
                 if st != "ok":
                     co.fail("C15|csv-display|" + ("empty-selection-" if not sel else "") + "export-raises-" +
                             (type(r).__name__ if st == "err" else "hang"),
@@ -1202,7 +1218,7 @@ def check_c15(tracks, rng: random.Random, co: CaseOut, selections=None, model: b
                 co.evals += 1
                 if nontriv:
                     co.nontrivial.append(h([tag, "geff", seg0 is not None]))
-                st, r = guarded(export_to_geff, tracks, d / f"g{i}", node_ids=set(sel))
+                st, r = guarded(export_to_geff, tracks, d / f"g{i}", node_ids=sel_arg(sel, 2))
                 pre = "C15|geff|" + ("empty-selection-" if not sel else "")
                 if st != "ok":
                     co.fail(pre + "export-raises-" + (type(r).__name__ if st == "err" else "hang"),
